@@ -21,6 +21,9 @@ import (
 
 // ---- NBNS requests built by the reference encoder -------------------------------------------------
 
+// stopBudget bounds how long a Stop/Close may take (three orders of magnitude above the expected time).
+const stopBudget = 3 * time.Second
+
 func nbName(name string) dns.Name {
 	enc, err := refnbns.FirstLevel([]byte(name))
 	if err != nil {
